@@ -183,6 +183,13 @@ try:
 except ImportError:
     pass
 
+try:
+    import gen_gate
+    MODULES['Gate'] = gen_gate.generate
+    MODULES['GateMutants'] = gen_gate.generate_mutants
+except ImportError:
+    pass
+
 def main():
     args = sys.argv[1:]
     repo = '/repo'
